@@ -16,7 +16,31 @@ verus! {
 pub open spec fn spec_default_generate_nonce<C: Ciphersuite>(stream: spec_fn(nat) -> u8, pos: nat) -> (Scalar<C>, Element<C>, nat)
 { (spec_rnz_val::<C>(stream, pos), gmul::<C>(spec_rnz_val::<C>(stream, pos)), spec_rnz_end::<C>(stream, pos)) }
 
+// the default verify_signature: pre_verify hook, challenge hook, then the cofactored Schnorr equation (RFC 9591)
+pub open spec fn spec_default_verify_signature<C: Ciphersuite>(msg: Seq<u8>, sig: Signature<C>, vk: VerifyingKey<C>) -> Result<(), Error<C>> {
+    match C::spec_pre_verify(msg, sig, vk) {
+        Err(e) => Err(e),
+        Ok(t) => match C::spec_hook_challenge(t.1.R, t.2, t.0) {
+            Err(e) => Err(e),
+            Ok(c) => spec_verify_prehashed::<C>(t.2.element.0, c, t.1),
+        },
+    }
+}
+
 pub open spec fn default_world<C: Ciphersuite>() -> bool {
+    &&& forall|a: SigningPackage<C>, b: crate::round1::SigningNonces<C>, c: KeyPackage<C>| #[trigger] C::spec_pre_sign(a, b, c) == Ok::<(SigningPackage<C>, crate::round1::SigningNonces<C>, KeyPackage<C>), Error<C>>((a, b, c))
+    &&& forall|a: SigningPackage<C>, b: BTreeMap<Identifier<C>, crate::round2::SignatureShare<C>>, c: PublicKeyPackage<C>| #[trigger] C::spec_pre_aggregate(a, b, c)
+            == Ok::<(SigningPackage<C>, BTreeMap<Identifier<C>, crate::round2::SignatureShare<C>>, PublicKeyPackage<C>), Error<C>>((a, b, c))
+    &&& forall|a: Seq<u8>, b: Signature<C>, c: VerifyingKey<C>| #[trigger] C::spec_pre_verify(a, b, c) == Ok::<(Seq<u8>, Signature<C>, VerifyingKey<C>), Error<C>>((a, b, c))
+    &&& forall|a: SigningPackage<C>, b: crate::round1::SigningNonces<C>, c: BindingFactorList<C>| #[trigger] C::spec_pre_commitment_sign(a, b, c) == Ok::<(SigningPackage<C>, crate::round1::SigningNonces<C>), Error<C>>((a, b))
+    &&& forall|a: SigningPackage<C>, c: BindingFactorList<C>| #[trigger] C::spec_pre_commitment_aggregate(a, c) == Ok::<SigningPackage<C>, Error<C>>(a)
+    &&& forall|r: Element<C>, vk: VerifyingKey<C>, m: Seq<u8>| #[trigger] C::spec_hook_challenge(r, vk, m) == spec_challenge::<C>(r, vk.element.0, m)
+    &&& forall|g: GroupCommitment<C>, n: crate::round1::SigningNonces<C>, b: BindingFactor<C>, l: Scalar<C>, k: KeyPackage<C>, c: Challenge<C>| #![trigger C::spec_hook_sig_share(g, n, b, l, k, c)]
+            C::spec_hook_sig_share(g, n, b, l, k, c).header == default_header::<C>()
+            && C::spec_hook_sig_share(g, n, b, l, k, c).share.0 == spec_sig_share::<C>(n.hiding.0.0, n.binding.0.0, b.0, l, k.signing_share.0.0, c.0)
+    &&& forall|g: GroupCommitment<C>, z: crate::round2::SignatureShare<C>, i: Identifier<C>, rs: crate::round1::GroupCommitmentShare<C>, y: VerifyingShare<C>, l: Scalar<C>, c: Challenge<C>|
+            #[trigger] C::spec_hook_verify_share(g, z, i, rs, y, l, c) == spec_sigshare_ok::<C>(z.share.0, rs.0, y.0.0, l, c.0)
+    &&& forall|m: Seq<u8>, s: Signature<C>, vk: VerifyingKey<C>| #[trigger] C::spec_hook_verify_signature(m, s, vk) == spec_default_verify_signature::<C>(m, s, vk)
     &&& forall|stream: spec_fn(nat) -> u8, pos: nat| #[trigger] C::spec_generate_nonce(stream, pos) == spec_default_generate_nonce::<C>(stream, pos)
     &&& forall|s: BTreeMap<Identifier<C>, SecretShare<C>>, p: PublicKeyPackage<C>| #[trigger] C::spec_post_generate(s, p) == Ok::<(BTreeMap<Identifier<C>, SecretShare<C>>, PublicKeyPackage<C>), Error<C>>((s, p))
     &&& forall|k: KeyPackage<C>, p: PublicKeyPackage<C>| #[trigger] C::spec_post_dkg(k, p) == Ok::<(KeyPackage<C>, PublicKeyPackage<C>), Error<C>>((k, p))
